@@ -17,7 +17,7 @@ import (
 // C03: the hook sees exactly the children the parent owns, in the documented shape (DESIGN §4 C03).
 // One sync per case; the expected view is computed independently from the cache content.
 
-var c03Roles = []string{"absent", "owned+marker", "owned-nomarker", "owned-othermarker", "foreign-owned+marker", "orphan+marker", "owned+marker+extra-owner", "owned+marker-deleting", "plain-owner+foreign-controller+marker", "owned-by-namesake-of-other-kind+marker"}
+var c03Roles = []string{"absent", "owned+marker", "owned-nomarker", "owned-othermarker", "foreign-owned+marker", "orphan+marker", "owned+marker+extra-owner", "owned+marker-deleting", "plain-owner+foreign-controller+marker", "owned-by-namesake-of-other-kind+marker", "owned+marker+extra-owner-after", "owned+marker+explicit-noncontroller-first"}
 
 type c03Slot struct {
 	Role string
@@ -111,6 +111,12 @@ func c03Run(c c03Case) []mc.Finding {
 			kit.Ann(kit.Owners(o, kit.OwnerRef(pk, "q", "quid", true), kit.OwnerRef(pk, "p", "puid", false)), marker, "dc")
 		case "owned+marker-deleting":
 			kit.Deleting(kit.Finalizers(kit.Ann(kit.Owners(o, ours), marker, "dc"), "ex.io/hold"))
+		case "owned+marker+extra-owner-after":
+			// the target's controller reference is NOT the last entry of the list
+			kit.Ann(kit.Owners(o, ours, kit.OwnerRef(kit.Other, "x", "xuid", false)), marker, "dc")
+		case "owned+marker+explicit-noncontroller-first":
+			// a plain owner that spells out controller:false, listed before the target's controller reference
+			kit.Ann(kit.Owners(o, kit.M{"apiVersion": "v1", "kind": "Other", "name": "x", "uid": "xuid", "controller": false, "blockOwnerDeletion": false}, ours), marker, "dc")
 		case "owned-by-namesake-of-other-kind+marker":
 			kit.Ann(kit.Owners(o, kit.OwnerRef(kit.NoThing, "p", "puid-nk", true)), marker, "dc")
 		}
@@ -125,7 +131,7 @@ func c03Run(c c03Case) []mc.Finding {
 		inScope := c.ClusterParent || (k.Namespaced && ns == pns)
 		visible := false
 		switch s.Role {
-		case "owned+marker", "owned+marker+extra-owner", "owned+marker-deleting":
+		case "owned+marker", "owned+marker+extra-owner", "owned+marker-deleting", "owned+marker+extra-owner-after", "owned+marker+explicit-noncontroller-first":
 			visible = true
 		}
 		if isDeclared && inScope && visible {
